@@ -90,6 +90,7 @@ func genFqConfig(r *rand.Rand, strs map[string]int64) ([]*fpb.Value, []fqVal, in
 	var vals []*fpb.Value
 	var recs []fqVal
 	var latest int64
+	hasXSync, xsync := false, -1
 	for i := 0; i < n; i++ {
 		id := fmt.Sprintf("v%d", i+1)
 		ts := int64(r.Intn(6))
@@ -107,7 +108,7 @@ func genFqConfig(r *rand.Rand, strs map[string]int64) ([]*fpb.Value, []fqVal, in
 			}
 		}
 		rec := fqVal{ID: id, Kind: "const", Ts: ts, Dmin: dmin, Dmax: dmax, Repeat: rep, Opts: []int64{}, Pos: 1}
-		switch r.Intn(11) {
+		switch r.Intn(12) {
 		case 0: // int constant
 			v.Value = &fpb.Value_IntValue{IntValue: &fpb.IntValue{Value: int64(r.Intn(20))}}
 		case 1, 2: // int range, with or without deltas
@@ -210,6 +211,17 @@ func genFqConfig(r *rand.Rand, strs map[string]int64) ([]*fpb.Value, []fqVal, in
 				}
 				rec.Opts = append(rec.Opts, strs[o])
 			}
+		case 10: // an explicit sync value, written like the marker the fake client injects (no path, repeat 1, no deltas)
+			if hasXSync {
+				v.Value = &fpb.Value_StringValue{StringValue: &fpb.StringValue{Value: "const"}}
+				break
+			}
+			hasXSync = true
+			v.Path, v.Seed, v.Repeat = nil, 0, 1
+			v.Timestamp = &fpb.Timestamp{Timestamp: ts}
+			v.Value = &fpb.Value_Sync{Sync: 1}
+			rec.ID, rec.Dmin, rec.Dmax, rec.Repeat = "xsync", 0, 0, 1
+			xsync = len(vals)
 		default:
 			v.Value = &fpb.Value_StringValue{StringValue: &fpb.StringValue{Value: "const"}}
 		}
@@ -219,6 +231,11 @@ func genFqConfig(r *rand.Rand, strs map[string]int64) ([]*fpb.Value, []fqVal, in
 		}
 		vals = append(vals, v)
 		recs = append(recs, rec)
+	}
+	if xsync >= 0 && r.Intn(2) == 0 {
+		// ... and stamped like it: at the latest initial timestamp
+		vals[xsync].Timestamp.Timestamp = latest
+		recs[xsync].Ts = latest
 	}
 	return vals, recs, latest
 }
@@ -248,7 +265,11 @@ func fqRun(vals []*fpb.Value, latest int64, seed int64, limit int, strs map[stri
 			return out, "exhausted"
 		}
 		v := x.(*fpb.Value)
-		out = append(out, fqEm{strings.Join(v.GetPath(), "/"), v.GetTimestamp().GetTimestamp(), fqTok(v, strs), v.GetRepeat()})
+		id := strings.Join(v.GetPath(), "/")
+		if id == "" {
+			id = "xsync" // the configuration's own sync value (the injected marker has the path "sync" here)
+		}
+		out = append(out, fqEm{id, v.GetTimestamp().GetTimestamp(), fqTok(v, strs), v.GetRepeat()})
 	}
 	return out, "limit"
 }
@@ -285,6 +306,13 @@ func fqAgentRun(vals []*fpb.Value, seed int64, limit int, strs map[string]int64)
 	}
 	var out []fqEm
 	lastTs := int64(0)
+	nsync := 0
+	hasXSync := false
+	for _, v := range vals {
+		if _, ok := v.GetValue().(*fpb.Value_Sync); ok {
+			hasXSync = true
+		}
+	}
 	for len(out) < limit {
 		resp, err := stream.Recv()
 		if err != nil {
@@ -295,7 +323,14 @@ func fqAgentRun(vals []*fpb.Value, seed int64, limit int, strs map[string]int64)
 		}
 		switch {
 		case resp.GetSyncResponse():
-			out = append(out, fqEm{"sync", lastTs, 1, -1})
+			// the configuration's own sync value (earlier in the queue: same or lower timestamp, inserted first) and the
+			// injected marker look the same on the wire: the first is the configuration's, if it has one
+			id := "sync"
+			if hasXSync && nsync == 0 {
+				id = "xsync"
+			}
+			nsync++
+			out = append(out, fqEm{id, lastTs, 1, -1})
 		case resp.GetUpdate() != nil:
 			n := resp.GetUpdate()
 			lastTs = n.GetTimestamp()
